@@ -188,11 +188,16 @@ class Harness:
             tps = {i: [rng.uniform(60, 90) for _ in range(rng.randrange(1, 4))] for i in ids}
             return dict(ips=ips, tps=tps)
         if op == "sim":
-            k = ("simulate", seed)
+            table = rng.random() < 0.5
+            k = ("simulate", seed, table)
             if k not in self.settings_cache:
                 vp = {"patient_number": 3, "visit_type": "random", "first_visit_mean": 0.0, "first_visit_std": 0.4,
                       "time_follow_up_mean": 3, "time_follow_up_std": 0.5, "distance_visit_mean": 1.0,
                       "distance_visit_std": 0.2, "min_spacing_between_visits": 1}
+                if table:
+                    # a caller-owned table of visits (integer identifiers, unsorted): it must come back untouched
+                    vp = {"visit_type": "dataframe",
+                          "df_visits": E.pd.DataFrame({"ID": [30, 7, 30, 12, 7], "TIME": [71.5, 68.0, 72.25, 80.0, 69.5]})}
                 with core.quiet():
                     self.settings_cache[k] = E.AlgorithmSettings("simulate", seed=seed, features=list(self.model.features),
                                                                  visit_parameters=vp)
